@@ -317,7 +317,7 @@ def pair_cases(quick, rng):
                        ["next", 0], ["exit", 0, MODES[n % 3]]] + _probes(1)
                 yield {"u": mk_u(kind, 9), "ops": ops, "ref": True, "with": True}
     if not quick:
-        sub = ["islice", "filter", "zip2", "pairwise", "batched", "tee", "groupby", "list", "anext", "chain2", "takewhile", "merge"]
+        sub = ["islice", "islice4", "islice5", "filter", "zip2", "pairwise", "batched", "tee", "groupby", "list", "anext", "chain2", "takewhile", "merge"]
         for t1, t2, t3 in itertools.product(sub, repeat=3):
             n += 1
             ops = [["enter", None], ["tool", 0, _tool(t1, n % 3, fins[n % 3])], ["tool", 0, _tool(t2, (n // 3) % 3, fins[(n // 3) % 3])],
